@@ -47,12 +47,14 @@ def trouble_values(c):
         n = c.params
         out = []
         for k, s in (("markup", "A&B<c>\"'"), ("non-ascii", "é€ ü"), ("at-limit", "x" * (n if n is not None else 300)), ("cdata-end", "a]]>b"),
-                     ("entity-text", "&amp;"), ("cdata-text", "<![CDATA[x]]>"), ("markup-at-limit", ("<&" * (n if n is not None else 20))[: (n if n is not None else 40)])):
+                     ("entity-text", "&amp;"), ("cdata-text", "<![CDATA[x]]>"), ("ampersand-word-semicolon", "AT&T; x&123;y &_; &#xyz;"),
+                     ("value-spelling-entities", "&amp;lt; &amp;#38; &amp;amp; &amp;nbsp;"), ("markup-at-limit", ("<&" * (n if n is not None else 20))[: (n if n is not None else 40)])):
             v = U._cut(s, n)
             out.append((k, v))
         return out
     if t == "OneOf":
-        return [("token", tok) for tok in c.params]
+        own = [str(x) for x in c.params]
+        return [("token", tok) for tok in c.params] + [("token-of-another-enumeration", tok) for tok in FOREIGN_TOKENS if tok not in own]
     if t == "DateTime":
         out = []
         for k, m in (("utc", 0), ("neg-frac-hour0", -30), ("pos-frac", 345), ("plus14", 840), ("minus12", -720)):
@@ -67,6 +69,25 @@ def trouble_values(c):
         out.append(("sub-ms", datetime.time(0, 0, 0, 499, tzinfo=tz(330))))
         return out
     return []
+
+
+# tokens that other enumerations declare; prime() has each of them accepted legitimately first, so that whatever the
+# library remembers about accepted tokens is in place when they are offered to an enumeration that does not declare them
+FOREIGN_TOKENS = ["INFO", "USD", "CHECKING", "ENG", "CREDIT", "USA", "Y", "ACTIVE"]
+_primed = []
+
+
+def prime():
+    if _primed:
+        return
+    _primed.append(True)
+    for tok in FOREIGN_TOKENS:
+        for cls in S.all_classes():
+            c = next((c for c in S.children(cls) if c.kind == "elem" and c.typ == "OneOf" and tok in [str(x) for x in c.params]), None)
+            if c is not None:
+                inst = U.build(U.min_with(cls, c, tok))
+                inst.to_etree()
+                break
 
 
 def leaf_ok(c, text):
@@ -271,6 +292,7 @@ def check_value_list(t, cl, cls, le, how, bad, setter):
 def work(chunk):
     t = Tally()
     cl = client()
+    prime()
     for clsname in chunk:
         cls = U.cls_by_name(clsname)
         for c in S.children(cls):
@@ -302,8 +324,8 @@ def run(ctx):
         "evaluations": tally.counts.get("evaluations", 0),
         "distinct_nontrivial": tally.counts.get("values", 0),
         "rule": "every class x every data element x trouble values of its type (Decimal: zeros, +/- exponents, normalize(), NaN, sNaN, +-Infinity, 29 and 30 significant "
-        "digits; Integer: 0, -1, +-limit, True; String: markup, non-ASCII, CDATA delimiters, entity text, at the limit; DateTime/Time: 5 zones with sub-ms parts and carries; "
-        "Bool; every enumeration token) set by keyword on the smallest instance; leaf texts of to_etree() checked against the lexical rule, then all 6 wire forms read by the "
+        "digits; Integer: 0, -1, +-limit, True; String: markup, non-ASCII, CDATA delimiters, entity text, '&' followed by a word and ';', values spelling entities, at the limit; DateTime/Time: 5 zones with sub-ms parts and carries; "
+        "Bool; every enumeration token, and 8 tokens of other enumerations - accepted there first - which must be refused) set by keyword on the smallest instance; leaf texts of to_etree() checked against the lexical rule, then all 6 wire forms read by the "
         "strict reference reader (well-formed, entities only, same data); ElementList classes: invalid members added through append/insert/extend/+= must be refused when written; "
         "distinct_nontrivial = (class, element, value) triples",
         "elements": tally.counts.get("elements", 0),
@@ -319,6 +341,7 @@ def run(ctx):
 def replay(ctx, case):
     t = Tally()
     cl = client()
+    prime()
     cls = U.cls_by_name(case["cls"])
     c = S.child_map(cls)[case["child"]]
     if str(case.get("vclass", "")).startswith("list-api"):
